@@ -639,6 +639,12 @@ func GenC19(seed uint64) *Scenario {
 	}
 	var faults []simnet.Fault
 	var gap int64
+	if idx >= len(c19Enum) && g.r.Chance(250) {
+		return genC19TwoSubscribers(g)
+	}
+	if idx >= len(c19Enum) && g.r.Chance(250) {
+		return genC19DebitMode(g)
+	}
 	if idx < len(c19Enum) {
 		p := c19Enum[idx]
 		for i := 1; i <= K; i++ {
@@ -683,6 +689,61 @@ func GenC19(seed uint64) *Scenario {
 		ops = append(ops, upd(i, "unfaulted"))
 	}
 	g.sc.Faults = faults
+	g.sc.Tasks = []Task{{ID: 0, Ops: ops}}
+	return g.sc
+}
+
+// genC19TwoSubscribers: two subscribers have requests outstanding at the same peers at the
+// same time; A's answers are slow (not lost), B is served promptly and must act on its own.
+func genC19TwoSubscribers(g *gen) *Scenario {
+	g.sc.Cfg.Concurrent = true
+	g.sc.Cfg.MaxLatNs = 2_000_000
+	g.sc.Cfg.OpBudgetNs = 120_000_000_000
+	a, b := supiN(1), supiN(2)
+	g.sc.Accounts = []Account{{Supi: a, RG: 1, Quota: 2_000_000_000, UnitCost: "1"}, {Supi: b, RG: 1, Quota: 2_000_000_000, UnitCost: "1"}}
+	pro := []Op{{ID: g.id(), Kind: "create", Supi: a, Sess: "sa", Consumer: "smf", ChargingID: 1}, {ID: g.id(), Kind: "create", Supi: b, Sess: "sb", Consumer: "smf", ChargingID: 2}}
+	g.sc.Tasks = []Task{{ID: 0, Ops: pro}}
+	t0 := int64(500_000_000)
+	var aOps, bOps []Op
+	for i := 0; i < 1+g.r.Intn(3); i++ {
+		op := Op{ID: g.id(), Kind: "update", Supi: a, Sess: "sa", Units: []Unit{{RG: 1, Req: int32(100 + 13*i), Containers: []Container{g.online(0)}}}}
+		// one of A's answers is slow
+		g.sc.Faults = append(g.sc.Faults, simnet.Fault{Peer: []string{"rf", "abmf"}[g.r.Intn(2)], Task: 1, Op: op.ID, Dir: "ans",
+			Cmd: 0, Nth: 1 + g.r.Intn(2), Kind: simnet.KDelay, DelayNs: g.r.Range(100, 3000) * 1_000_000})
+		aOps = append(aOps, op)
+	}
+	for i := 0; i < 1+g.r.Intn(4); i++ {
+		bOps = append(bOps, Op{ID: g.id(), Kind: "update", Supi: b, Sess: "sb", Role: "unfaulted",
+			Units: []Unit{{RG: 1, Req: int32(7000 + 101*i), Containers: []Container{g.online([]int{0, 1000}[g.r.Intn(2)])}}}})
+	}
+	g.sc.Tasks = append(g.sc.Tasks, Task{ID: 1, StartNs: t0, Ops: aOps}, Task{ID: 2, StartNs: t0 + g.r.Range(0, 400_000_000), Ops: bOps})
+	g.sc.Shape = fmt.Sprintf("two-subscribers a=%d b=%d", len(aOps), len(bOps))
+	return g.sc
+}
+
+// genC19DebitMode: the faulted request is a final report (debit-mode settlement); follow-ups
+// use another rating group of the same subscriber.
+func genC19DebitMode(g *gen) *Scenario {
+	supi := supiN(1)
+	g.sc.Cfg.MaxLatNs = 2_000_000
+	g.sc.Cfg.OpBudgetNs = 120_000_000_000
+	g.sc.Accounts = []Account{{Supi: supi, RG: 1, Quota: 2_000_000_000, UnitCost: "1"}, {Supi: supi, RG: 2, Quota: 2_000_000_000, UnitCost: "1"}}
+	ops := []Op{{ID: g.id(), Kind: "create", Supi: supi, Sess: "s", Consumer: "smf", ChargingID: 1},
+		{ID: g.id(), Kind: "update", Supi: supi, Sess: "s", Units: []Unit{{RG: 1, Req: 1000, Containers: []Container{g.online(0)}}}}}
+	fin := Op{ID: g.id(), Kind: "update", Supi: supi, Sess: "s", Final: true, Units: []Unit{{RG: 1, Req: 1000, Containers: []Container{g.online([]int{300, 1000}[g.r.Intn(2)])}}}}
+	ops = append(ops, fin)
+	kind := []string{simnet.KDelay, simnet.KDelay, simnet.KWithhold, simnet.KDrop}[g.r.Intn(4)]
+	// addressed by position on the wire (the settlement is the second credit-control exchange of
+	// the run), not by the issuing op: whichever task or helper sends it, it is hit
+	g.sc.Faults = []simnet.Fault{{Peer: "abmf", Task: -1, Op: -1, Dir: []string{"ans", "req"}[g.r.Intn(2)], Cmd: 272, Nth: 1, Kind: kind, DelayNs: g.r.Range(200, 9000) * 1_000_000}}
+	if g.r.Chance(500) {
+		ops = append(ops, Op{ID: g.id(), Kind: "sleep", SleepNs: g.r.Range(1, 3000) * 1_000_000})
+	}
+	for i := 0; i < 3; i++ {
+		ops = append(ops, Op{ID: g.id(), Kind: "update", Supi: supi, Sess: "s", Role: "unfaulted",
+			Units: []Unit{{RG: 2, Req: int32(500 + 37*i), Containers: []Container{g.online([]int{0, 1000}[i%2])}}}})
+	}
+	g.sc.Shape = "debit-mode settlement " + kind
 	g.sc.Tasks = []Task{{ID: 0, Ops: ops}}
 	return g.sc
 }
